@@ -96,6 +96,17 @@ def _all_small(h, w):
                         yield _pb(h, w, wv, wh, mark, s, g)
 
 
+def _uniform_small(rng, h, w, k):
+    """k problems drawn uniformly from _all_small(h, w) (which is too long to materialise for 6 cells)"""
+    cs = _cells(h, w)
+    for _ in range(k):
+        wv, wh = _walls(h, w, [rng.randint(0, 1) for _ in range(_nwalls(h, w))])
+        mark = [[rng.choice([0, 1, 2]) for _ in range(w)] for _ in range(h)]
+        s = rng.choice(cs)
+        g = rng.choice([c for c in cs if c != s])
+        yield _pb(h, w, wv, wh, mark, s, g)
+
+
 def _random_problem(rng, h, w):
     cs = _cells(h, w)
     s = rng.choice(cs)
@@ -192,8 +203,10 @@ def families(tier, rng):
         yield from _all_small(h, w)
     for (h, w) in [(2, 2)]:
         yield from L.sample(rng, _all_small(h, w), 3000 if th else 300)
-    for (h, w) in [(1, 4), (4, 1), (2, 3), (3, 2)]:
+    for (h, w) in [(1, 4), (4, 1)]:
         yield from L.sample(rng, _all_small(h, w), 1500 if th else 150)
+    for (h, w) in [(2, 3), (3, 2)]:
+        yield from _uniform_small(rng, h, w, 1500 if th else 150)
     # S = G, or exactly one of S / G off the board: no solution by the rules
     for (h, w) in [(1, 2), (2, 2), (2, 3), (3, 3)]:
         for _ in range(10 if th else 3):
@@ -276,8 +289,10 @@ def tier1_problems(tier, rng):
             yield pb
             if rng.random() < 0.2:
                 yield dict(pb, g=pb["s"])
-    for (h, w) in [(1, 3), (3, 1), (2, 2), (2, 3), (3, 2)]:
+    for (h, w) in [(1, 3), (3, 1), (2, 2)]:
         yield from L.sample(rng, _all_small(h, w), 300 if th else 40)
+    for (h, w) in [(2, 3), (3, 2)]:
+        yield from _uniform_small(rng, h, w, 300 if th else 40)
     for (h, w) in [(2, 3), (3, 2), (3, 3), (2, 5), (5, 2), (4, 4), (3, 6), (6, 5), (1, 7), (7, 1), (8, 8), (10, 10)]:
         for i in range(9 if th else 3):
             pb = _random_problem(rng, h, w)
